@@ -14,6 +14,7 @@ import json
 import multiprocessing as mp
 import os
 import pkgutil
+import subprocess
 import sys
 import time
 import traceback
@@ -467,6 +468,27 @@ def main(argv=None):
         print(f"CHECKER-ERROR {e['key']}[{e['tree']}]: {e['error']['kind']}: {e['error']['msg']}")
         if args.verbose and e["error"].get("tb"):
             print(e["error"]["tb"])
+    # bounded stand-ins (thorough tier only): labelled bounded, never counted as proved ---------------
+    audit_results = []
+    if tier == "thorough" and not args.only:
+        audit_results = run_audits(prop, spec, os.path.abspath(args.repo), seed)
+        for a in audit_results:
+            if a["outcome"] == "held":
+                continue
+            if a["outcome"] == "counterexample" and a["kind"] == "property":
+                h = hashlib.sha256(a["script"].encode()).hexdigest()[:10]
+                path = os.path.join(HERE, "replays", f"{prop}_audit_{h}.json")
+                json.dump({"property": prop, "bounded_check": a["script"], "verdict": "failing input found on the real code", "failing_input": a.get("detail"),
+                           "how_to_replay": f"cd {os.path.abspath(args.repo)} && VERIF_SEED={seed} {os.path.join(HERE, '.venv/bin/python')} {os.path.join(HERE, a['script'])}"}, open(path, "w"), indent=1, default=str)
+                print(f"VIOLATION property={prop} replay={path} bounded_check={a['script']}")
+                exit_code = 1
+            elif a["outcome"] == "counterexample":
+                print(f"UNDECIDED assumed contract audited by {a['script']} does not hold: {json.dumps(a.get('detail'))[:400]}")
+                exit_code = exit_code or 2
+            else:
+                print(f"CHECKER-ERROR bounded check {a['script']}: {a['outcome']}: {str(a.get('detail'))[:300]}")
+                exit_code = exit_code or 3
+
     for o in undecided:
         print(f"UNDECIDED {o['oid']}: {o['status']}")
     for oid in missing:
@@ -485,7 +507,7 @@ def main(argv=None):
             print(f"  fn {r['key']}[{r['tree']}] {r['stats']}")
 
     if not args.no_evidence:
-        write_evidence(prop, tier, seed, spec, reg, repo, results, obligations, discharged, refuted_known, violations, undecided, missing, errors, wall, args)
+        write_evidence(prop, tier, seed, spec, reg, repo, results, obligations, discharged, refuted_known, violations, undecided, missing, errors, wall, args, audit_results)
     n_ok = len(discharged)
     print(
         f"{prop}: {len(obligations)} obligations, {n_ok} discharged, {len(refuted_known)} known findings, "
@@ -494,7 +516,36 @@ def main(argv=None):
     return exit_code
 
 
-def write_evidence(prop, tier, seed, spec, reg, repo, results, obligations, discharged, refuted_known, violations, undecided, missing, errors, wall, args):
+def run_audits(prop, spec, repo_dir, seed):
+    """run the bounded stand-ins registered for this property against the tree under check"""
+    out = []
+    py = os.path.join(HERE, ".venv", "bin", "python")
+    for a in spec.get("audits", []):
+        script = a["script"]
+        t0 = time.time()
+        rec = {"script": script, "kind": a["kind"], "what": a["what"], "bounded": True}
+        try:
+            env = dict(os.environ, VERIF_SEED=str(seed), PYTHONPATH=repo_dir)
+            p = subprocess.run([py, os.path.join(HERE, script)], cwd=repo_dir, env=env, capture_output=True, text=True, timeout=600)
+            last = (p.stdout.strip().splitlines() or [""])[-1]
+            try:
+                info = json.loads(last)
+            except Exception:
+                info = {"raw": last[-300:]}
+            if p.returncode == 0:
+                rec.update(outcome="held", explored=info.get("explored"), bound=info.get("bound"))
+            elif p.returncode == 1:
+                rec.update(outcome="counterexample", detail=info)
+            else:
+                rec.update(outcome=f"crash (exit {p.returncode})", detail=(p.stderr or p.stdout)[-400:])
+        except subprocess.TimeoutExpired:
+            rec.update(outcome="timeout", detail="600 s")
+        rec["wall_s"] = round(time.time() - t0, 2)
+        out.append(rec)
+    return out
+
+
+def write_evidence(prop, tier, seed, spec, reg, repo, results, obligations, discharged, refuted_known, violations, undecided, missing, errors, wall, args, audit_results=()):
     funcs = []
     solver_time = 0.0
     nvc = 0
@@ -551,6 +602,7 @@ def write_evidence(prop, tier, seed, spec, reg, repo, results, obligations, disc
             "obligation_list": {o["oid"]: o["status"] for o in sorted(obligations.values(), key=lambda x: x["oid"])},
             "known_findings_reported": sorted({o["oid"] for o in refuted_known}),
             "bounded_stand_ins": spec.get("bounded", []),
+            "bounded_checks_run": list(audit_results) if tier == "thorough" else "bounded stand-ins run in the thorough tier only: " + ", ".join(a["script"] for a in spec.get("audits", [])) if spec.get("audits") else [],
             "not_decided": spec.get("not_decided", []),
             "file_sha256": repo.file_hashes(),
             "unasync_table_from_script": repo.unasync.from_script,
